@@ -328,6 +328,13 @@ def transform(text, rules, kind=None):
     for _ in range(k):
         rules.hit('R9')
     text = new
+    if kind in ('struct', 'enum'):
+        # R9: module-private type -> pub
+        code = blank_noncode(text)
+        m = re.search(r'\b(struct|enum)\b', code)
+        if m and not re.search(r'\bpub\b', code[:m.start()]):
+            text = text[:m.start()] + 'pub ' + text[m.start():]
+            rules.hit('R9')
     if kind == 'struct':
         text = make_fields_pub(text, rules)
     if kind == 'impl':
